@@ -51,6 +51,9 @@ func (env *SpecEnv) with(st *State) *SpecEnv {
 	return &e
 }
 
+// unsetLocal: an internal clause mentions a local that is not in scope at the exit being checked
+type unsetLocal string
+
 type specErr string
 
 func (env *SpecEnv) fail(f string, a ...interface{}) {
@@ -228,13 +231,17 @@ func (env *SpecEnv) lookupIdent(name string) (TV, bool) {
 		}
 		if found != nil {
 			et := found.Type().(*types.Pointer).Elem()
+			if env.atExit && env.fr.exitBlock != nil && !found.Block().Dominates(env.fr.exitBlock) {
+				// declared on another path only: the internal clause does not apply at this exit
+				panic(unsetLocal(name))
+			}
 			if !found.Heap {
 				if v, ok := env.st.locals[found]; ok {
 					return TV{v, et}, true
 				}
 				if env.atExit {
-					// not assigned on the path to this exit: arbitrary value (conservative for a proof goal)
-					return TV{env.vc.havocVal(env.st, et, "unset$"+name), et}, true
+					// not declared on the path to this exit: the internal clause does not apply there
+					panic(unsetLocal(name))
 				}
 			} else {
 				p := asPtr(env.fr.regs[found], et)
